@@ -676,7 +676,7 @@ where
                                 .reason_code(DisconnectReasonCode::KeepAliveTimeout)
                                 .build()
                             {
-                                events.extend(self.process_send_v5_0_disconnect(disconnect));
+                                events.extend(self.close_with_v5_0_disconnect(disconnect));
                             }
                         }
                     }
@@ -701,7 +701,7 @@ where
                                 .reason_code(DisconnectReasonCode::KeepAliveTimeout)
                                 .build()
                             {
-                                events.extend(self.process_send_v5_0_disconnect(disconnect));
+                                events.extend(self.close_with_v5_0_disconnect(disconnect));
                             }
                         }
                     }
@@ -2429,7 +2429,7 @@ where
                 .unwrap();
             if self.status == ConnectionStatus::Connected {
                 // Send disconnect packet directly without generic constraints
-                events.extend(self.process_send_v5_0_disconnect(disconnect_packet));
+                events.extend(self.close_with_v5_0_disconnect(disconnect_packet));
             } else {
                 // DISCONNECT cannot be sent before the connection is established
                 self.status = ConnectionStatus::Disconnected;
@@ -3701,12 +3701,30 @@ where
         events.push(GenericEvent::NotifyError(e));
     }
 
+    /// Send a library-generated DISCONNECT and request close; if the DISCONNECT itself exceeds
+    /// the peer's Maximum Packet Size the connection is closed without it
+    fn close_with_v5_0_disconnect(
+        &mut self,
+        packet: v5_0::Disconnect,
+    ) -> Vec<GenericEvent<PacketIdType>> {
+        if self.status == ConnectionStatus::Connected
+            && !self.validate_maximum_packet_size_send(packet.size())
+        {
+            let mut events = Vec::new();
+            self.status = ConnectionStatus::Disconnected;
+            self.cancel_timers(&mut events);
+            events.push(GenericEvent::RequestClose);
+            return events;
+        }
+        self.process_send_v5_0_disconnect(packet)
+    }
+
     fn handle_v5_0_error(&mut self, e: MqttError, events: &mut Vec<GenericEvent<PacketIdType>>) {
         let disconnect = v5_0::Disconnect::builder()
             .reason_code(e.into())
             .build()
             .unwrap();
-        events.extend(self.process_send_v5_0_disconnect(disconnect));
+        events.extend(self.close_with_v5_0_disconnect(disconnect));
         events.push(GenericEvent::NotifyError(e));
     }
 
